@@ -721,6 +721,13 @@ ovni_thread_free(void)
 	if (rthread.cpus)
 		set_thread_cpus(meta);
 
+	/* Close the stream first: a write error may only be reported now,
+	 * and then the stream must not be marked as finished */
+	if (close(rthread.streamfd) != 0)
+		die("close stream failed:");
+
+	rthread.streamfd = -1;
+
 	/* Mark it finished so we can detect partial streams */
 	if (json_object_dotset_number(meta, "ovni.finished", 1) != 0)
 		die("json_object_dotset_string failed");
@@ -729,9 +736,6 @@ ovni_thread_free(void)
 
 	free(rthread.evbuf);
 	rthread.evbuf = NULL;
-
-	close(rthread.streamfd);
-	rthread.streamfd = -1;
 
 	if (rproc.move_to_final) {
 		/* The dir rthread.thdir_final must exist in the FS */
